@@ -56,6 +56,26 @@ def modelChain (topic : Bytes) (delta : Nat) (a b c : OpInst) : Option String :=
         let sc := if sb == "hang" then "hang" else showOutcome rc
         some s!"{showOutcome ra} {sb} {sc}"
 
+/-- a slow link: k bytes of A's frame, then nothing until A's deadline has passed.  The model has no time: a stream
+that stalls past the deadline is a stream that ends after k bytes. -/
+def modelSlow (topic : Bytes) (k : Nat) (a b : OpInst) : Option String :=
+  match runInstL false topic a (⟨(frame 1 a.body).take k, 1, false⟩, false) with
+  | none => none
+  | some (ra, c1) =>
+    match runInstL false topic b c1 with
+    | some (rb, _) => some s!"{showOutcome ra} {showOutcome rb}"
+    | none => none
+
+/-- A gave up (an error) and the Conn is not used again — or A returned a result and B, whose own response reports no
+error, is served exactly that response -/
+def monitorSlow (impl : String) : Bool :=
+  match words impl with
+  | [ra, rb] =>
+    -- B failing with io.ErrNoProgress means it was attempted on a stream left in mid-response: a closed Conn fails
+    -- before reading anything
+    (isFailStr ra && isFailStr rb && rb != "fail:noprogress") || (isDone ra && !isFailStr ra && rb == "ok")
+  | _ => false
+
 /-- n operations in a row on one Conn -/
 def modelSeq (topic : Bytes) (xs : List OpInst) : Option String :=
   let stream := (xs.zipIdx.map fun (x, i) => frame (i + 1) x.body).foldl (· ++ ·) []
@@ -141,6 +161,13 @@ def step (line : String) : String :=
         | some m => s!"model={m} holds={if monitorChain impl then 1 else 0}"
         | none => "bad-op"
       | _, _, _, _, _ => "bad-args"
+    | ["c11w", t, ks, sa, ha, sb, hb] =>
+      match ofHex t, ks.toNat?, parseInst sa ha, parseInst sb hb with
+      | some topic, some k, some a, some b =>
+        match modelSlow topic k a b with
+        | some m => s!"model={m} holds={if monitorSlow impl then 1 else 0}"
+        | none => "bad-op"
+      | _, _, _, _ => "bad-args"
     | "c11n" :: t :: ns :: rest =>
       let rec insts (l : List String) : Option (List OpInst) :=
         match l with
